@@ -158,6 +158,14 @@ Proof.
     destruct pa; [left; reflexivity|]. destruct (e_sig e); left; reflexivity.
 Qed.
 
+(* a handler whose item carries no loop-side extension data runs to completion: in particular every abort
+   (requestor cancel, CancelResponse, network-error report), pause, terminate and executor round trip, in every
+   state of the table and of the signal slots *)
+Lemma handle_no_ext_completes s it rest : item_loop_ext it = 0 -> loop (handle s it rest) = LRun rest.
+Proof.
+  intro Hz. destruct (handle_spec s it rest) as [E|(p & t & st & ents & k & E & Hn & _)]; [exact E | lia].
+Qed.
+
 Lemma handle_mailbox s it rest : mailbox (handle s it rest) = mailbox s.
 Proof.
   destruct it as [p r ext v pa pl|p r|p r ext he un|r ext|r ext|r|r|p r|p r|w r|w r pa]; simpl.
